@@ -46,10 +46,15 @@
 //	agstop   Agent.Stop; bounded wait                                              obs  hc=<gone|parked|spinning> usage=<gone|idle|pending|sent>
 //	(after agstop the three environment ops answer  loc=<gone|…>)
 //
-// router cases (header kind=router): the application wired as cmd/refinery/main.go wires it (facebookgo inject graph:
-// real app.App with its two route.Router on 127.0.0.1, real InMemCollector, two real DirectTransmission, LocalPubSub,
-// SamplerFactory, health.Health …; upstream = the in-process fake Honeycomb), started with startstop.Start and stopped
-// with startstop.Stop over g.Objects().
+// router cases (header kind=router opamp=<0|1> stress=<never|monitor|always> dry=<0|1> z=<0|1>): the application wired as
+// cmd/refinery/main.go wires it — every object main.go provides to the facebookgo inject graph: config (MockConfig),
+// peer.FilePeers{Done}, pubsub.LocalPubSub (PeerManagement.Type "file"; the redis pair needs a Redis server and is not
+// exercised), logger, both transports, both real DirectTransmission (upstream compressed iff z=1), the sharder main
+// picks (DeterministicSharder), real InMemCollector, promMetrics / otelMetrics (NullMetrics: both disabled), tracer,
+// clock, MultiMetrics, version, SamplerFactory, collect.StressRelief{Done} in the configured mode, health.Health,
+// configwatcher.ConfigWatcher, app.App (which starts the OpAMP agent iff OpAMP.Enabled; its endpoint is a closed port
+// on 127.0.0.1), instanceID — started with startstop.Start; shutdown as main does it: close(done), then
+// startstop.Stop over g.Objects() (under recover: a panic is the observation err=panic:<message>).
 //
 //	rtev <sid>       a complete POST /1/batch/d0 with one non-trace event (goes straight to the upstream
 //	                 transmission, where it stays pending: MaxBatchSize 500, BatchTimeout 1 h)   obs  ok st=<status> pend=<n>
@@ -92,6 +97,7 @@ import (
 	"github.com/facebookgo/inject"
 	"github.com/facebookgo/startstop"
 	"github.com/jonboulle/clockwork"
+	"github.com/klauspost/compress/zstd"
 	"github.com/open-telemetry/opamp-go/client"
 	types2 "github.com/open-telemetry/opamp-go/client/types"
 	"github.com/open-telemetry/opamp-go/protobufs"
@@ -102,6 +108,7 @@ import (
 	"github.com/honeycombio/refinery/app"
 	"github.com/honeycombio/refinery/collect"
 	"github.com/honeycombio/refinery/config"
+	"github.com/honeycombio/refinery/internal/configwatcher"
 	"github.com/honeycombio/refinery/internal/health"
 	"github.com/honeycombio/refinery/internal/peer"
 	kit "github.com/honeycombio/refinery/internal/verifkit"
@@ -290,8 +297,15 @@ func decodeIDs(b []byte) ([]int64, error) {
 	return ids, nil
 }
 
+var zdec, _ = zstd.NewReader(nil)
+
 func (u *upstream) ServeHTTP(w http.ResponseWriter, req *http.Request) {
 	body, _ := io.ReadAll(req.Body)
+	if req.Header.Get("Content-Encoding") == "zstd" {
+		if dec, derr := zdec.DecodeAll(body, nil); derr == nil {
+			body = dec
+		}
+	}
 	ids, err := decodeIDs(body)
 	ds := strings.TrimPrefix(req.URL.Path, "/1/batch/")
 	parts := make([]string, len(ids))
@@ -623,7 +637,7 @@ func (c *comp) Gen(r *kit.Rng, maxLen int, tier string) kit.Case {
 		if x := r.Intn(100); x < 10 {
 			// router history: complete uploads and uploads left in flight; stopall at every prefix
 			c.agent = false
-			c.hdr = "kind=router"
+			c.hdr = fmt.Sprintf("kind=router opamp=%d stress=%s dry=%d z=%d", r.Intn(2), []string{"never", "monitor", "always"}[r.Intn(3)], r.Intn(2), r.Intn(2))
 			var ops []string
 			m := 1 + r.Intn(4)
 			for i := 1; i <= m; i++ {
@@ -737,7 +751,7 @@ func (c *comp) NewCase(h []string) kit.Runner {
 		return newRetryRunner(h)
 	}
 	if kit.KV(h, "kind") == "router" {
-		return newRouterRunner()
+		return newRouterRunner(h)
 	}
 	atoi := func(k string, d int64) int64 {
 		v, err := strconv.ParseInt(kit.KV(h, k), 10, 64)
@@ -1362,6 +1376,12 @@ type routerRunner struct {
 	infl    []*inflightReq
 	stopped bool
 	started bool
+	opamp   bool
+	stress  string
+	dry     bool
+	z       bool
+	done    chan struct{}
+	agBase  int // agent loops left over from earlier cases of this process
 }
 
 func freePort() int {
@@ -1373,9 +1393,14 @@ func freePort() int {
 	return l.Addr().(*net.TCPAddr).Port
 }
 
-func newRouterRunner() *routerRunner {
-	r := &routerRunner{up: &upstream{}}
+func newRouterRunner(h []string) *routerRunner {
+	r := &routerRunner{up: &upstream{}, opamp: kit.KV(h, "opamp") == "1", stress: kit.KV(h, "stress"),
+		dry: kit.KV(h, "dry") == "1", z: kit.KV(h, "z") == "1"}
+	if r.stress == "" {
+		r.stress = "never"
+	}
 	r.srv = httptest.NewServer(r.up)
+	r.agBase = agentLoops()
 	for attempt := 0; attempt < 3 && !r.started; attempt++ {
 		r.start()
 	}
@@ -1409,32 +1434,40 @@ func (r *routerRunner) start() {
 		TraceIdFieldNames:  []string{"trace.trace_id"},
 		ParentIdFieldNames: []string{"trace.parent_id"},
 		SampleCache:        config.SampleCacheConfig{KeptSize: 100, DroppedSize: 1000, SizeCheckInterval: config.Duration(time.Hour)},
+		DryRun:             r.dry,
+		StressRelief: config.StressReliefConfig{Mode: r.stress, ActivationLevel: 90, DeactivationLevel: 75, SamplingRate: 100,
+			MinimumActivationDuration: config.Duration(10 * time.Second)},
+		GetOpAmpConfigVal: config.OpAMPConfig{Enabled: r.opamp, Endpoint: fmt.Sprintf("ws://127.0.0.1:%d/v1/opamp", freePort())},
 	}
-	met := &metrics.MockMetrics{}
-	met.Start()
-	r.upTx = transmit.NewDirectTransmission(types.TransmitTypeUpstream, &http.Transport{}, 500, time.Hour, 5*time.Second, false, nil)
+	r.done = make(chan struct{})
+	r.upTx = transmit.NewDirectTransmission(types.TransmitTypeUpstream, &http.Transport{}, 500, time.Hour, 5*time.Second, r.z, nil)
 	r.peerTx = transmit.NewDirectTransmission(types.TransmitTypePeer, &http.Transport{}, 500, time.Hour, 5*time.Second, false, nil)
-	r.coll = &collect.InMemCollector{}
+	r.coll = collect.GetCollectorImplementation(cfg).(*collect.InMemCollector)
 	a := &app.App{Version: "verif"}
 	r.g = inject.Graph{}
 	err := r.g.Provide(
 		&inject.Object{Value: cfg},
-		&inject.Object{Value: peer.NewMockPeers([]string{"api1"}, "api1")},
+		&inject.Object{Value: &peer.FilePeers{Done: r.done}},
+		&inject.Object{Value: &pubsub.LocalPubSub{}},
 		&inject.Object{Value: &logger.NullLogger{}},
 		&inject.Object{Value: &http.Transport{}, Name: "upstreamTransport"},
+		&inject.Object{Value: &http.Transport{}, Name: "peerTransport"},
 		&inject.Object{Value: r.upTx, Name: "upstreamTransmission"},
 		&inject.Object{Value: r.peerTx, Name: "peerTransmission"},
-		&inject.Object{Value: &sharder.SingleServerSharder{}},
-		&inject.Object{Value: noop.NewTracerProvider().Tracer("verif"), Name: "tracer"},
+		&inject.Object{Value: sharder.GetSharderImplementation(cfg)},
 		&inject.Object{Value: r.coll},
-		&inject.Object{Value: &pubsub.LocalPubSub{}},
-		&inject.Object{Value: met, Name: "metrics"},
+		&inject.Object{Value: &metrics.NullMetrics{}, Name: "promMetrics"},
+		&inject.Object{Value: &metrics.NullMetrics{}, Name: "otelMetrics"},
+		&inject.Object{Value: noop.NewTracerProvider().Tracer("verif"), Name: "tracer"},
+		&inject.Object{Value: clockwork.NewRealClock()},
+		&inject.Object{Value: metrics.GetMetricsImplementation(cfg), Name: "metrics"},
 		&inject.Object{Value: "verif", Name: "version"},
 		&inject.Object{Value: &sample.SamplerFactory{}},
+		&inject.Object{Value: &collect.StressRelief{Done: r.done}, Name: "stressRelief"},
 		&inject.Object{Value: &health.Health{}},
-		&inject.Object{Value: clockwork.NewFakeClock()},
-		&inject.Object{Value: &collect.MockStressReliever{}, Name: "stressRelief"},
+		&inject.Object{Value: &configwatcher.ConfigWatcher{}},
 		&inject.Object{Value: a},
+		&inject.Object{Value: "verif0001", Name: "instanceID"},
 	)
 	if err != nil {
 		panic(err)
@@ -1522,10 +1555,34 @@ func (r *routerRunner) Do(op []string) (string, bool) {
 	return "bad-op", true
 }
 
+func agentLoops() int {
+	n := 0
+	for _, g := range goroutines() {
+		if strings.Contains(g.text, fnHC+"(") || strings.Contains(g.text, fnUsage+"(") {
+			n++
+		}
+	}
+	return n
+}
+
 func (r *routerRunner) stopAll() string {
 	r.stopped = true
+	agBefore := agentLoops() - r.agBase
 	stopped := make(chan error, 1)
-	go func() { stopped <- startstop.Stop(r.g.Objects(), nil) }()
+	panicked := make(chan string, 1)
+	close(r.done) // main.go: tell the peers first (it then sleeps 2 x BatchTimeout, which the harness skips)
+	go func() {
+		defer func() {
+			if e := recover(); e != nil {
+				msg := strings.SplitN(fmt.Sprint(e), "\n", 2)[0]
+				if len(msg) > 80 {
+					msg = msg[:80]
+				}
+				panicked <- msg
+			}
+		}()
+		stopped <- startstop.Stop(r.g.Objects(), nil)
+	}()
 	var sts []string
 	if len(r.infl) > 0 {
 		time.Sleep(50 * time.Millisecond)
@@ -1555,28 +1612,49 @@ func (r *routerRunner) stopAll() string {
 		default:
 			errS = kit.Enc(err.Error())
 		}
+	case msg := <-panicked:
+		errS = "panic:" + kit.Enc(msg)
 	case <-time.After(20 * time.Second):
 	}
 	coll := 0
 	if collect.VerifShutdownClosed(r.coll, collect.VerifShutdownNumWorkers(r.coll)-1) {
 		coll = 1
 	}
-	return fmt.Sprintf("err=%s coll=%d up=%d peer=%d st=%s u=%s", errS, coll, transmit.VerifShutdownStopped(r.upTx),
-		transmit.VerifShutdownStopped(r.peerTx), list(sts), r.up.take())
+	// the OpAMP agent's two loops: running before the shutdown iff OpAMP is enabled, gone afterwards (bounded wait)
+	agLeft := 0
+	deadline := time.Now().Add(250 * time.Millisecond)
+	for {
+		agLeft = agentLoops() - r.agBase
+		if agLeft <= 0 || time.Now().After(deadline) {
+			break
+		}
+		time.Sleep(200 * time.Microsecond)
+	}
+	return fmt.Sprintf("err=%s coll=%d up=%d peer=%d ag=%d/%d st=%s u=%s", errS, coll, transmit.VerifShutdownStopped(r.upTx),
+		transmit.VerifShutdownStopped(r.peerTx), agBefore, agLeft, list(sts), r.up.take())
 }
 
 // Close stops whatever an aborted stop sequence has left running.
 func (r *routerRunner) Close() {
-	defer func() { recover() }()
+	try := func(f func()) {
+		defer func() { recover() }()
+		f()
+	}
 	for _, f := range r.infl {
 		f.conn.Close()
 	}
 	if !r.stopped {
-		startstop.Stop(r.g.Objects(), nil)
-	} else {
-		if !collect.VerifShutdownClosed(r.coll, collect.VerifShutdownNumWorkers(r.coll)-1) {
-			startstop.Stop(r.g.Objects(), nil)
-		}
+		close(r.done)
+		try(func() { startstop.Stop(r.g.Objects(), nil) })
+	}
+	if !collect.VerifShutdownClosed(r.coll, collect.VerifShutdownNumWorkers(r.coll)-1) {
+		try(func() { r.coll.Stop() })
+	}
+	if transmit.VerifShutdownStopped(r.upTx) == 0 {
+		try(func() { r.upTx.Stop() })
+	}
+	if transmit.VerifShutdownStopped(r.peerTx) == 0 {
+		try(func() { r.peerTx.Stop() })
 	}
 	r.srv.Close()
 }
